@@ -282,7 +282,8 @@ pub fn mk_public_trade(
 ) -> MarketEvent<InstrumentIndex, DataKind> {
     MarketEvent {
         time_exchange: ts(t_ms),
-        time_received: ts(t_ms),
+        // as on a live feed, the local receive time is later than (and unrelated to) exchange time
+        time_received: ts(t_ms + 3_600_000),
         exchange: ex,
         instrument: InstrumentIndex(inst),
         kind: DataKind::Trade(PublicTrade {
@@ -303,7 +304,7 @@ pub fn mk_l1(
 ) -> MarketEvent<InstrumentIndex, DataKind> {
     MarketEvent {
         time_exchange: ts(t_ms),
-        time_received: ts(t_ms),
+        time_received: ts(t_ms + 3_600_000),
         exchange: ex,
         instrument: InstrumentIndex(inst),
         kind: DataKind::OrderBookL1(OrderBookL1 {
